@@ -182,7 +182,7 @@ def replay(ctx: Ctx, beh, conc, c, origin, model_factory=None):
                     diffs.append(f"run_state {obs['rs']} != {want['rs']}")
                 if obs["rep"] != want["rep"]:
                     diffs.append(f"replication_state {obs['rep']} != {want['rep']}")
-                if obs["clock"] != want["clock"]:
+                if obs["clock"] != want["clock"] and want["rs"] != "NOT_INITIALIZED":
                     diffs.append(f"clock {obs['clock']} != {want['clock']}")
                 if obs["pending_known"] and want["rs"] != "NOT_INITIALIZED" and set(obs["pending"]) != set(want["pending"]):
                     diffs.append(f"pending {obs['pending']} != {sorted(want['pending'])}")
